@@ -301,3 +301,167 @@ spec('C17', correspond=c17_correspond, replay=c17_replay, modules=['C17'],
               'the correspondence check (Python orchestrator, both drivers)'],
      assumptions=['read buffers are non-empty (a zero-length buffer makes every read Ok(0): the Read contract)',
                   'thread interleavings are sequences of the atomic operations write/flush/read'])
+
+
+# ================================================================================================ C18
+
+def chunkings(data, rng):
+    """ways the OS may batch the same bytes"""
+    out = {'all-at-once': [data] if data else []}
+    lines = data.split(b'\n')
+    lb = [l + b'\n' for l in lines[:-1]] + ([lines[-1]] if lines[-1] else [])
+    out['line-by-line'] = lb
+    out['byte-by-byte'] = [bytes([b]) for b in data]
+    cuts = sorted(rng.sample(range(1, len(data)), min(len(data) - 1, rng.randint(1, 6)))) if len(data) > 2 else []
+    out['random-splits'] = [data[a:b] for a, b in zip([0] + cuts, cuts + [len(data)])] if data else []
+    return out
+
+def c18_texts(rng, n):
+    texts = [b'1\n2\n3\n', b'', b'\n', b'\n\n', b'abc', b'abc\n', b'a\nb', 'λx\né\n'.encode(), b'(+ 1\n2)\n', b'x' * 300 + b'\n' + b'y' * 9000 + b'\nz\n']
+    alphabet = ['a', 'b', '1', ' ', '(', ')', '"', 'λ', 'é', '\n', '\n', ';', '%']
+    for _ in range(n):
+        texts.append(''.join(rng.choice(alphabet) for _ in range(rng.randint(0, 40))).encode())
+    return texts
+
+def char_list_dump(s):
+    return '(' + ' '.join(f'C{ord(c)}' for c in s) + ')' if s else '()'
+
+def c18_stdin_part(rng, tier):
+    texts = c18_texts(rng, 60 if tier == 'quick' else 600)
+    sessions, meta = [], []
+    for t in texts:
+        for cname, chunks in chunkings(t, rng).items():
+            nlines = t.count(b'\n') + 3
+            prog = ' '.join(['(input-file *stdin*)'] * nlines)
+            sessions.append(['new prelude', 'stdin ' + ','.join(hexs(c) for c in chunks), 'evalx ' + hexs(prog)])
+            meta.append((t, cname, nlines))
+    return sessions, meta
+
+def c18_expected_lines(t, n):
+    text = t.decode('utf-8')
+    parts = text.split('\n')
+    lines = [p + '\n' for p in parts[:-1]] + ([parts[-1]] if parts[-1] else [])
+    exp = []
+    for i in range(n):
+        if i < len(lines):
+            exp.append(('ok', char_list_dump(lines[i])))
+        else:
+            exp.append(('sig', err_dump('eof', 'input-file')))
+    return exp
+
+# --- the REPL on the real binary, as a process
+
+LOADED = 'Loaded native functions.\nLoaded prelude.\nLoaded repl.\n'
+
+def run_repl_process(chunks, timeout=60):
+    """feed the plain binary's stdin with exactly these chunks (a pause between chunks keeps the OS from coalescing them)"""
+    import subprocess, time as _t
+    p = subprocess.Popen([lib.PLAIN_BIN], stdin=subprocess.PIPE, stdout=subprocess.PIPE, stderr=subprocess.PIPE)
+    try:
+        for c in chunks:
+            p.stdin.write(c)
+            p.stdin.flush()
+            _t.sleep(0.002)
+        p.stdin.close()
+        out = p.stdout.read()
+        err = p.stderr.read()
+        p.wait(timeout=timeout)
+        return out.decode('utf-8', 'replace'), p.returncode, err.decode('utf-8', 'replace')
+    except Exception as e:
+        p.kill()
+        return f'<<{e}>>', -1, ''
+
+def repl_scripts(rng, tier):
+    """(script text, expected results or None) — one form per line or forms spanning lines; never two forms on one line"""
+    scripts = []
+    def form(i):
+        k = rng.random()
+        if k < 0.3: return (f'(add {i} 1)', str(i + 1))
+        if k < 0.5: return (f'(+ {i}\n   2\n   3)', str(i + 5))
+        if k < 0.6: return ("'sym", 'sym')
+        if k < 0.7: return ('(list 1\n2)', '(1 2)')
+        if k < 0.8: return ('"str"', '"str"')
+        if k < 0.9: return (f'; comment\n{i}', str(i))
+        return (f'\n\n{i}', str(i))
+    for n in ([1, 2, 5, 20, 60] if tier == 'quick' else [1, 2, 5, 20, 60, 200, 600]):
+        fs = [form(i) for i in range(n)]
+        scripts.append(('\n'.join(f for f, _ in fs) + '\n', [e for _, e in fs]))
+    # errors in the middle of a session: the session goes on
+    scripts.append(('1\n(car 5)\n2\n(undefined)\n3\n', None))
+    scripts.append(('(+ 1 2', None))           # incomplete at end of input
+    scripts.append(('1\n)\n2\n', None))         # syntax error
+    scripts.append(('', None))
+    return scripts
+
+def c18_correspond(run, rng, tier):
+    failures, findings_seen = [], set()
+    # ---- layer 1: input-file *stdin* in-process, every chunking
+    sessions, meta = c18_stdin_part(rng, tier)
+    sessions = [[l.replace('evalx ', 'eval ') for l in s] for s in sessions]
+    real, model = both(sessions)
+    diffs = compare(sessions, real, model)
+    dist = {}
+    for (t, cname, nlines), r in zip(meta, real):
+        results, _ = parse_eval(r[2] if len(r) > 2 else '')
+        exp = c18_expected_lines(t, nlines)
+        got = [(k, d) for (k, _, d) in (results or [])]
+        dist[cname] = dist.get(cname, 0) + 1
+        if got != exp:
+            failures.append({'stdin_bytes_hex': t.hex(), 'chunking': cname, 'expected': exp[:6], 'real': got[:6], 'problem': 'lines of standard input not delivered exactly once in order'})
+    # ---- layer 2: REPL sessions on the real binary (process level) vs the model evaluator running repl.lisp
+    scripts = repl_scripts(rng, tier)
+    rsessions, rmeta = [], []
+    for text, expected in scripts:
+        data = text.encode()
+        for cname, chunks in chunkings(data, rng).items():
+            if cname == 'byte-by-byte' and len(data) > 400:
+                continue
+            rsessions.append(['new repl', 'stdin ' + ','.join(hexs(c) for c in chunks), 'eval ' + hexs('(repl ">>> " nil)')])
+            rmeta.append((text, expected, cname, chunks))
+    rreal, rmodel = both(rsessions, timeout=900)
+    diffs += compare(rsessions, rreal, rmodel)
+    n_proc = 0
+    for (text, expected, cname, chunks), rm in zip(rmeta, rmodel):
+        _, trailer = parse_eval(rm[2] if len(rm) > 2 else '')
+        model_out = trailer.get('out') if trailer else None
+        out, rc, err = run_repl_process(chunks)
+        n_proc += 1
+        transcript = LOADED + (model_out or '') + 'Bye!\n'
+        if model_out is None or out != transcript or rc != 0:
+            diffs.append({'session': 'repl-process', 'request': text[:200], 'chunking': cname, 'real': out[-600:], 'model': transcript[-600:], 'exit': rc, 'stderr': err[-300:]})
+        if expected is not None:
+            # independent oracle: every form evaluated exactly once, in order, one result per form, clean end
+            body = out[len(LOADED):] if out.startswith(LOADED) else out
+            got = [l for l in re.split(r'(?:>>> |\.\.\. )+', body.replace('\nBye!\n', '\n').replace('Bye!\n', '')) if l.strip() != '']
+            got = [g.rstrip('\n') for g in got]
+            if got != expected or rc != 0 or not out.endswith('Bye!\n'):
+                failures.append({'script': text[:400], 'chunking': cname, 'expected_results': expected[:10], 'real_results': got[:10], 'exit': rc,
+                                 'problem': 'REPL did not evaluate every form exactly once in order'})
+    # ---- known-finding witnesses (reported, not alarms)
+    two, rc2, _ = run_repl_process([b'1 2\n'])
+    if '2' not in two.replace(LOADED, '').replace('>>> ', ''):
+        findings_seen.add('F17a-repl-one-form-per-line')
+    return {'evaluations': len(sessions) + len(rsessions) + n_proc, 'distinct_nontrivial': len({(m[0], m[1]) for m in meta if m[0].count(b'\n') >= 1}) + len(scripts),
+            'rule': 'layer 1: generated byte texts x 4 chunkings (all at once / line by line / byte by byte / random splits) through input-file *stdin* of the real interpreter vs model vs Python line splitting; '
+                    'layer 2: REPL scripts (one form per line, forms spanning lines, comments, blank lines, errors) x chunkings on the real binary as a process, on the hooked driver and on the model evaluator running repl.lisp; non-trivial = text with at least one newline / script',
+            'samples': [repr(meta[i][0][:40]) + ' / ' + meta[i][1] for i in range(0, min(len(meta), 40), 9)] + [scripts[1][0][:80]],
+            'disagreements': diffs, 'oracle_failures': failures, 'distribution': dist, 'findings_seen': findings_seen}
+
+def c18_replay(run, content):
+    out = []
+    for f in content.get('failures', []):
+        if 'stdin_bytes_hex' in f:
+            t = bytes.fromhex(f['stdin_bytes_hex'])
+            for cname, chunks in chunkings(t, random.Random(1)).items():
+                p, rc, _ = run_repl_process(chunks)
+                print(cname, repr(p[-300:]))
+        elif 'script' in f:
+            p, rc, _ = run_repl_process([f['script'].encode()])
+            print(repr(p[-600:]))
+    return {'evaluations': 1, 'distinct_nontrivial': 2, 'samples': ['replay'], 'disagreements': [], 'oracle_failures': [], 'rule': 'replay'}
+
+spec('C18', correspond=c18_correspond, replay=c18_replay, modules=['C18'], plain=True,
+     search=lambda run, rng, d: c18_correspond(run, random.Random(rng.random()), 'quick')['oracle_failures'],
+     trusted=['std::io::BufReader::read_line as modelled (fill one chunk, scan for newline, consume)', 'UTF-8 decoding', 'the correspondence check'],
+     assumptions=['the OS delivers non-empty reads before end of input', 'OS batching, process start-up and exit are runtime behaviour: exercised, not proved',
+                  'REPL layer: differential only (model evaluator running the real repl.lisp vs the real binary)'])
